@@ -38,15 +38,15 @@ ONLY = os.environ.get("VERIF_C19_ONLY", "")
 
 # Tolerances.  Worst values seen on the repaired tree (quick+thorough, several
 # seeds) are reported in the evidence as max_*; the limits leave >= 3 decades.
-TOL_MU = 1.0e-12          # row-equilibrated residual; worst seen 1.3e-15
-TOL_META = 1.0e-11        # x kappa; worst seen 4e-16 x kappa... see evidence
+TOL_MU = 2.0e-12          # row-equilibrated residual; worst seen 1.7e-15 (design: 1e-12)
+TOL_META = 1.0e-11        # x kappa; worst seen 3.6e-16 x kappa
 KAPPA_EQ_MAX = 1.0e8      # row-equilibrated condition of generated systems
 KAPPA_META_MAX = 1.0e5
 TOL_AB = 1.0e-9           # x (1 + kappa)
 TOL_LS = 1.0e-8           # x (1 + kappa)
 KAPPA_LS_MAX = 1.0e4
 KAPPA_CAL_MAX = 1.0e4
-SING_FACTOR = 1.0e10         # design figure 1e12; worst seen 1.3e13 (duplicated rows)
+SING_FACTOR = 1.0e9          # design figure 1e12; worst seen 1e13 (duplicated rows, rounding-level pivot)
 
 FAMILIES = ("random", "permuted", "rowscaled", "colscaled", "entryscaled",
             "trap")
@@ -1265,8 +1265,12 @@ def main():
     # long jobs first
     order = {"ab": 0, "ls": 1, "sapi": 2, "conv": 3, "sconv": 4}
     payloads.sort(key=lambda p: order[p[0]])
+    one_per_part = {}
     for part in R.pmap(dispatch, payloads):
+        for sm in part.get("samples", []):
+            one_per_part.setdefault(sm.get("part"), sm)
         chk.merge(part)
+    chk.samples = list(one_per_part.values())[:6]
     chk.counters["oracle_selftest_residual"] = w
     chk.finish(
         rule="conv: vnaconv_ztoyn/ytozn/stozn/stoyn/ztosn/ytosn, n=1..8, "
